@@ -13,6 +13,7 @@ CONSTANTS
   HydCounts = {}
   ChargeToks <- Q_All
   PrefixSet <- P_All
+  MaxPrefixes = 1
   SuffixSet <- S_All
   PrimeMarks = {"*"}
   MaxPrimes = 1
